@@ -135,7 +135,7 @@ func (s *Statement) Evict(reclaimeeTask *pod_info.PodInfo, message string,
 	return nil
 }
 
-func (s *Statement) commitEvict(reclaimee *pod_info.PodInfo, evictOp evictOperation) error {
+func (s *Statement) commitEvict(reclaimee *pod_info.PodInfo, evictOp evictOperation, index int) error {
 	reclaimeePodGroup, found := s.ssn.ClusterInfo.PodGroupInfos[reclaimee.Job]
 	if !found {
 		return fmt.Errorf("could not reclaim pod <%v/%v> because could not find its podGroup <%v>",
@@ -144,7 +144,20 @@ func (s *Statement) commitEvict(reclaimee *pod_info.PodInfo, evictOp evictOperat
 
 	if err := s.ssn.Cache.Evict(reclaimee.Pod, reclaimeePodGroup, evictOp.evictionMetadata, evictOp.message); err != nil {
 		log.InfraLogger.Errorf("Failed to evict task <%v/%v>: %v.", reclaimee.Namespace, reclaimee.Name, err)
-		// The pod keeps running: restore the state it had before the (virtual) eviction. (Un-evicting with the task's
+		// The pod keeps running. Later steps of this statement that placed it again (a move: evict, then pipeline
+		// elsewhere) are void and must not be committed: undo them first, latest first, otherwise the task is charged
+		// both where it runs and where it was nominated.
+		for j := len(s.operations) - 1; j > index; j-- {
+			later := s.operations[j]
+			if later.Name() == undo || later.TaskInfo().UID != reclaimee.UID {
+				continue
+			}
+			if e := s.undoOperation(j); e != nil {
+				log.InfraLogger.Errorf("Failed to undo %s of task <%v/%v> after its eviction failed: %v.",
+					later.Name(), reclaimee.Namespace, reclaimee.Name, e)
+			}
+		}
+		// Then restore the state it had before the (virtual) eviction. (Un-evicting with the task's
 		// current values would leave it releasing while charging its queue again.)
 		if e := evictOp.Reverse(); e != nil {
 			log.InfraLogger.Errorf("Failed to un-evict task <%v/%v>: %v.",
@@ -572,7 +585,7 @@ func (s *Statement) Commit() error {
 		case evict:
 			log.InfraLogger.V(4).Infof("Evicting task: %v/%v", taskInfo.Namespace, taskInfo.Name)
 			evictOp := op.(evictOperation)
-			if err = s.commitEvict(taskInfo, evictOp); err != nil {
+			if err = s.commitEvict(taskInfo, evictOp, i); err != nil {
 				log.InfraLogger.Errorf("Failed to evict task <%v/%v>, error: <%v>",
 					taskInfo.Namespace, taskInfo.Name, err)
 			}
